@@ -140,7 +140,10 @@ FlLock ==
   /\ flPc = "woke"
   /\ IF rdStopped
      THEN /\ flPc' = "exited"
-          /\ reqPc' = [r \in Reqs |-> IF rdHasBc /\ r \in rdBc /\ reqPc[r] = "waiting" THEN "closed" ELSE reqPc[r]]
+          \* broadcaster.stop(): the listeners of the pending broadcaster (requests registered after the
+          \* flusher last took the broadcaster, e.g. while refreshFn was running) get a closed channel
+          /\ reqPc' = [r \in Reqs |-> IF rdHasBc /\ r \in rdBc /\ reqPc[r] = "waiting" /\ Mut # "dropbc"
+                                       THEN "closed" ELSE reqPc[r]]
           /\ rdHasBc' = FALSE /\ rdBc' = {}
           /\ rdTimer' = "off"
           /\ rdDone' = TRUE
@@ -506,6 +509,14 @@ CloseReturns == \A k \in Closers : (kpc[k] # "idle") ~> (kpc[k] = "done")
 StopReturns == \A k \in Closers : (kpc[k] \in {"rs_send", "rs_wait"}) ~> (kpc[k] \notin {"rs_send", "rs_wait"})
 \* nobody waits for a refresh answer forever
 NobodyStuck == \A r \in Reqs : (reqPc[r] = "waiting") ~> (reqPc[r] # "waiting")
+\* The listeners of refreshNow, explicitly: a requester is on exactly one list while it waits - the pending
+\* broadcaster (rdBc) or the broadcaster being served (flCur) - and every request, made before, during (refreshFn
+\* running) or after stop, is eventually answered with the refresh result or with a closed channel.
+ListenersTracked == \A r \in Reqs : reqPc[r] = "waiting" =>
+                       ((rdHasBc /\ r \in rdBc) \/ (flPc \in {"refreshing", "selfwait"} /\ r \in flCur))
+RequesterAnswered == \A r \in Reqs : (reqPc[r] = "waiting") ~> (reqPc[r] \in {"answered", "closed"})
+\* a request made once stop has marked the debouncer is refused at once (closed channel), never queued
+NoQueueAfterStop == rdStopped /\ flPc = "exited" => ~rdHasBc
 \* the background goroutines exit after Close
 GoroutinesExit == isClosed ~> (flPc = "exited" /\ hbPc = "exited" /\ rcPc \in {"idle", "done"}
                                 /\ \A e \in EvDeb : evPc[e] = "exited")
